@@ -15,6 +15,7 @@ trap 'git -C /repo worktree remove --force "$SCRATCH/repo" 2>/dev/null; rm -rf "
 rsync -a --exclude target "$ROOT/harness/" "$SCRATCH/harness/"
 sed -i "s#flatcontainer = { path = \"/repo\" }#flatcontainer = { path = \"$SCRATCH/repo\" }#" "$SCRATCH/harness/Cargo.toml"
 cd "$SCRATCH/harness" || exit 9
+export FCVERIF_REPO_SRC="$SCRATCH/repo/src"
 export CARGO_NET_OFFLINE=true
 cargo build --offline --bin fcverif >"$SCRATCH/build.log" 2>&1 || { echo "baseline build failed"; tail -5 "$SCRATCH/build.log"; exit 2; }
 {
